@@ -43,7 +43,7 @@ use crate::worker::{Reply, WorkerPool, esc, unesc};
 const MEM_LIMIT: u64 = 4 << 30;
 const DEADLINE: Duration = Duration::from_secs(20);
 /// a re-run in a fresh worker counts as a hang after this much CPU time spent on the request ...
-const HANG_CPU_S: u64 = 20;
+const HANG_CPU_S: u64 = 120;
 /// ... or after this long without any runnable thread (deadlock / sleep)
 const HANG_IDLE_S: u64 = 30;
 /// wall-clock cap of the re-run; reaching it (machine too loaded to burn 20 CPU-seconds) is inconclusive
